@@ -11,7 +11,7 @@ ASSUMPTIONS = ["oracle: Python integers (sum(vals[i+j] << (b*j)))", "values fit 
 REQUIRED_FEATURES = ["same_object_sequence", "boundary_bits", "dtype_narrower_than_stride", "length_not_multiple_of_register", "window_straddles_registers", "multi_register", "exhaustive_contents", "empty_array",
                      "position_list_with_repeats", "stride_64", "empty_position_list", "input_not_contiguous"]
 BOUNDS = {"quick": "b in {1,2,4,8,16,32,64} x lengths {0..5, p-1,p,p+1, 2p-1,2p,2p+1, 3p+2} (p=64/b) x every integer dtype that holds 2**b-1 x "
-                   "{zeros, max, alternating, progression}; ALL contents for b=1 (L<=10) and b=2 (L<=5); every position, 6 position-list families, every window 1..p",
+                   "{zeros, max, alternating, progression}; ALL contents for b=1 (L<=10) and b=2 (L<=5); every position, 6 position-list families, every window 1..p; every integer dtype per stride; boundary-bit family; >4096-register arrays; list and ndarray position lists incl. empty, contiguous-unaligned and 3-cycles; numpy-integer window sizes; strided / reversed inputs; same-object observation sequences",
           "thorough": "every length 0..3p+2; all contents b=1 L<=12, b=2 L<=6, b=4 L<=3"}
 STRIDES = [1, 2, 4, 8, 16, 32, 64]
 INT_DTYPES = ["uint8", "int8", "uint16", "int16", "uint32", "int32", "uint64", "int64"]
